@@ -170,6 +170,7 @@ Proof.
   all: try discriminate H.
   (* on an edge *)
   all: try (match type of H with (if ?c then _ else _) = _ => destruct c end; [injection H as H; subst st'; left; reflexivity |];
+            match type of H with (if ?c then _ else _) = _ => destruct c end; [injection H as H; subst st'; left; reflexivity |];
             match type of H with (if ?c then _ else _) = _ => destruct c end; [injection H as H; subst st'; left; reflexivity |]).
   (* on a face *)
   all: try (match type of H with (if ?c then _ else _) = _ => destruct c end; [injection H as H; subst st'; left; reflexivity |];
